@@ -32,3 +32,29 @@ func TestVerifReplayStaleHTTPGroup(t *testing.T) {
 		t.Fatalf("route of the http group is still registered after every member left")
 	}
 }
+
+// nopanic.(*HTTPGroup).chooseEndpoint.index: the round-robin counter is a
+// uint64 converted to int before the modulo; past 2^63 the index is negative.
+func TestVerifReplayHTTPGroupCounterWrap(t *testing.T) {
+	defer func() {
+		if r := recover(); r != nil {
+			t.Fatalf("round-robin choice panicked: %v", r)
+		}
+	}()
+	router := vhost.NewRouters()
+	ctl := NewHTTPGroupController(router)
+	rc := vhost.RouteConfig{Domain: "a.example.com", Location: "/", CreateConnFn: func(string) (net.Conn, error) { return nil, nil }}
+	for _, n := range []string{"p1", "p2", "p3"} {
+		if err := ctl.Register(n, "g", "k", rc); err != nil {
+			t.Fatal(err)
+		}
+	}
+	g := ctl.groups["g"]
+	g.index = 1<<63 + 3
+	if _, err := g.chooseEndpoint(); err != nil {
+		t.Fatal(err)
+	}
+	if _, err := g.createConn("1.2.3.4:5"); err != nil {
+		t.Fatal(err)
+	}
+}
